@@ -218,8 +218,18 @@ def run_lexonly(chk, F, rid="R-LEXONLY"):
                                                           for z in walk(a))):
                             if any(w is c for w in walk(a)):
                                 continue        # the variable lives inside this lambda: not an argument
+                        # a record that carries the text next to other fields (label_t: kind, text, xpath): reading
+                        # a field other than the text does not look at the text
+                        only_other_fields = set()
+                        for m_ in walk(a):
+                            b_ = m_.get("base") if m_.get("k") == "member" else None
+                            while isinstance(b_, dict) and b_.get("k") in ("cast", "paren"):
+                                b_ = b_["e"]
+                            if isinstance(b_, dict) and b_.get("k") == "ref" and b_.get("name") == vname and \
+                                    m_.get("name") not in ("text", "has_text"):
+                                only_other_fields.add(id(b_))
                         if any(y.get("k") == "ref" and (y.get("id") == vid if vid is not None else y.get("name") == vname)
-                               and y.get("name") == vname for y in walk(a)):
+                               and y.get("name") == vname and id(y) not in only_other_fields for y in walk(a)):
                             others.append(c2.get("name") or "call")
                 for x in walk(fn["body"]):
                     if x.get("k") == "sub" and any(y.get("k") == "ref" and y.get("name") == vname and
